@@ -2,7 +2,7 @@ import YProofs.Lemmas.GaugeCanonize
 import YProofs.Lemmas.GaugeFold
 import YProofs.Lemmas.NestedProjection
 import YProofs.Lemmas.GaugeQR
-import Mathlib.Analysis.InnerProductSpace.PiL2
+import YProofs.Lemmas.NestedProjectionExample
 /-!
 # C08 — Canonical forms preserve the state; truncation is honest
 
@@ -229,31 +229,6 @@ theorem fold_is_true_error {E : Type*} [NormedAddCommGroup E] [InnerProductSpace
   exact ⟨h1, by rw [h2]; ring⟩
 
 /-! ### non-vacuity: coordinate truncations of ℝ³ -/
-
-/-- coordinate projection of ℝ³ keeping the coordinates `i < c` -/
-noncomputable def coordProj (c : ℕ) : EuclideanSpace ℝ (Fin 3) →ₗ[ℝ] EuclideanSpace ℝ (Fin 3) where
-  toFun x := WithLp.toLp 2 (fun i => if i.val < c then x i else 0)
-  map_add' x y := by ext i; simp only [PiLp.add_apply]; split <;> simp
-  map_smul' r x := by ext i; simp only [PiLp.smul_apply, RingHom.id_apply]; split <;> simp
-
-theorem coordProj_apply (c : ℕ) (x : EuclideanSpace ℝ (Fin 3)) (i : Fin 3) :
-    coordProj c x i = if i.val < c then x i else 0 := rfl
-
-theorem coordProj_isOrthProj (c : ℕ) : IsOrthProj (coordProj c) where
-  idem x := by ext i; simp only [coordProj_apply]; split <;> rfl
-  symm x y := by
-    simp only [PiLp.inner_apply]
-    refine Finset.sum_congr rfl (fun i _ => ?_)
-    change ⟪coordProj c x i, y i⟫ = ⟪x i, coordProj c y i⟫
-    simp only [coordProj_apply]; split <;> simp
-
-theorem coordProj_nested {a b : ℕ} (h : b ≤ a) (x : EuclideanSpace ℝ (Fin 3)) :
-    coordProj a (coordProj b x) = coordProj b x := by
-  ext i; simp only [coordProj_apply]
-  by_cases h1 : i.val < b
-  · have : i.val < a := by omega
-    simp [h1, this]
-  · simp [h1]
 
 /-- the hypotheses of `nested_projection_error` are satisfiable by a sweep that really truncates:
 `P 0` drops the last coordinate of ℝ³, `P 1` the last two; for every start vector (e.g. `(1,1,1)`: `d₀² = 1/3`,
